@@ -38,12 +38,14 @@ type CaseG struct {
 	// SliceKeys: keys stored one after another in a second raw tree whose item type
 	// has a slice field (not comparable with ==); version = 1+index.
 	SliceKeys []int `json:"slice_keys,omitempty"`
+	// Probes: keys looked up (wrapper Get, raw Get and Has) after the deletes.
+	Probes []int `json:"probes,omitempty"`
 }
 
 func (c CaseG) wellFormed() bool {
 	return validDegree(c.Degree) && c.N >= 0 && c.N <= 20000 && c.Step >= 1 && c.Step <= 1000 &&
 		c.Off >= -1<<40 && c.Off <= 1<<40 && c.Order >= 0 && c.Order <= 2 && c.Mult >= 0 && c.Mult <= 1<<20 &&
-		len(c.Dels) <= 1000 && len(c.WScans) <= 1000 && len(c.BScans) <= 1000 && len(c.SliceKeys) <= 1000
+		len(c.Dels) <= 1000 && len(c.WScans) <= 1000 && len(c.BScans) <= 1000 && len(c.SliceKeys) <= 1000 && len(c.Probes) <= 5000
 }
 
 // bulkKeys lists the keys of the bulk build in insertion order.
@@ -105,6 +107,10 @@ func GenBig(t *rapid.T) CaseG {
 		// the length itself on a boundary of interest
 		c.N = rapid.SampledFrom([]int{512, 513, 640, 768, 1023, 1024, 1025, 1027}).Draw(t, "nb")
 	}
+	if rapid.IntRange(0, map[bool]int{false: 15, true: 5}[thorough]).Draw(t, "tall") == 1 {
+		// the wrapper's degree-2 tree gets 11-12 levels
+		c.N = rapid.SampledFrom([]int{2050, 2600, 4100}).Draw(t, "ntall")
+	}
 	c.Step = rapid.SampledFrom([]int{1, 1, 2, 3}).Draw(t, "step")
 	c.Off = rapid.SampledFrom([]int{0, 0, 0, -700, 5, -1 << 30}).Draw(t, "off")
 	c.Order = rapid.IntRange(0, 2).Draw(t, "order")
@@ -128,6 +134,17 @@ func GenBig(t *rapid.T) CaseG {
 		}
 		m.Del(k)
 		return k
+	})
+	c.Probes = drawSeq(t, "probes", atLeast(t, "probemin", 40, 4, 12, 30), 40, func(t *rapid.T, i int) int {
+		switch pk := rapid.IntRange(0, 9).Draw(t, "probekind"); {
+		case pk < 5 && m.Len() > 0:
+			return presentKey(t, m, "probepresent")
+		case pk < 7 && len(c.Dels) > 0:
+			return c.Dels[rapid.IntRange(0, len(c.Dels)-1).Draw(t, "probedeleted")]
+		case pk < 8:
+			return c.Off + rapid.SampledFrom([]int{-1, 0, c.N*c.Step - 1, c.N * c.Step, c.N*c.Step + 1}).Draw(t, "probeedge")
+		}
+		return keyAt("probe")
 	})
 	l := m.Len()
 	lims := bigLimits(l)
@@ -236,11 +253,15 @@ func ExecBig(c CaseG) *vkit.Result {
 	}
 	for i, k := range c.Dels {
 		ctx := fmt.Sprintf("del %d key %d", i, k)
+		noteOp(ctx)
 		_, had := m.Get(k)
 		if got := tr.Delete(Item{K: k}); got != had {
 			return res.Failf("big.wrapper.Delete/ret", "%s: wrapper Delete returned %v, want %v", ctx, got, had)
 		}
 		if _, ok := applyTreeOp(res, t, m, nil, BOp{Kind: "del", A: k}, 0, "big.btree.", ctx); !ok {
+			return res
+		}
+		if !wrapperGet(res, tr, m, k, "big.wrapper.Delete/get-after", ctx) {
 			return res
 		}
 		if !check("big.Delete", ctx, i == len(c.Dels)-1) {
@@ -255,6 +276,28 @@ func ExecBig(c CaseG) *vkit.Result {
 	if hb >= 5 {
 		res.Class("raw-tree-height>=5")
 	}
+	if hw >= 11 {
+		res.Class("wrapper-tree-height>=11")
+	}
+	// lookups on the tall trees: present keys, deleted keys, neighbours, the edges of the key range
+	for i, k := range c.Probes {
+		ctx := fmt.Sprintf("probe %d key %d on %d items (wrapper tree height %d, raw tree height %d)", i, k, m.Len(), hw, hb)
+		noteOp(ctx)
+		if !wrapperGet(res, tr, m, k, "big.wrapper.Get", ctx) {
+			return res
+		}
+		if _, ok := applyTreeOp(res, t, m, nil, BOp{Kind: "get", A: k}, 0, "big.btree.", ctx); !ok {
+			return res
+		}
+		if _, ok := applyTreeOp(res, t, m, nil, BOp{Kind: "has", A: k}, 0, "big.btree.", ctx); !ok {
+			return res
+		}
+		if _, had := m.Get(k); had {
+			res.Class("probe-present")
+		} else {
+			res.Class("probe-absent")
+		}
+	}
 	maxRet := 0
 	for i, op := range c.WScans {
 		if _, _, scan := isScan(op.Kind); !scan || op.N < 0 || op.N > 1<<20 || op.Filter < 0 || op.Filter >= filterKinds {
@@ -262,6 +305,7 @@ func ExecBig(c CaseG) *vkit.Result {
 			continue
 		}
 		ctx := fmt.Sprintf("wrapper scan %d %+v on %d items", i, op, m.Len())
+		noteOp(ctx)
 		if _, ok := runWrapperScanAt(res, tr, m, op, "big.wrapper.", ctx); !ok {
 			return res
 		}
@@ -360,7 +404,7 @@ func execSliceItems(res *vkit.Result, c CaseG) bool {
 
 var PartBig = &vkit.Part[CaseG]{
 	Property: Property, Name: "big",
-	Rule:  "rapid: a tree.BTree (degree 2) and a btree.BTree of degree 2/3/4/7/32 bulk-built from 600-1500 keys (thorough 3000; a quarter of the cases exactly 512/513/640/768/1023/1024/1025/1027) given by offset, step 1-3 and insertion order ascending / descending / strided (i*mult mod n, repeats replace), then 0-30 drawn deletes (VerifCheck on both trees after each, full content after the build and after the last delete), then 2-10 wrapper scans (all four kinds) with n in {127,128,129,200,255,256,257,300,511..514,700,1023,1024,1025,2048,len/2,len-1,len,len+1,len+3}, filters {all, even keys, odd versions, version>=x, none}, pivot nil / the key at which n-1,n,n+1 items remain / any key or a neighbour, and 2-8 raw scans (all ten entry points, half of them unbounded) whose iterator stops after one of the same counts or never; every result must equal the first n matching items of the sorted-slice model in scan order, the content is compared again at the end. One case in three also stores 1-14 items of a type with a slice field (not comparable with ==) in a raw tree and a wrapper: ReplaceOrInsert's return value, Get of every key and Len after each store. Non-trivial: a wrapper scan returned more than 128 items; distinct = distinct case JSON",
+	Rule:  "rapid: a tree.BTree (degree 2) and a btree.BTree of degree 2/3/4/7/32 bulk-built from 600-1500 keys (thorough 3000; a quarter of the cases exactly 512/513/640/768/1023/1024/1025/1027; one case in sixteen 2050/2600/4100, the degree-2 wrapper tree then has 11-12 levels, thorough one in six) given by offset, step 1-3 and insertion order ascending / descending / strided (i*mult mod n, repeats replace), then 0-30 drawn deletes (VerifCheck on both trees and Get/Has of the deleted key after each, full content after the build and after the last delete), then 4-40 lookups (wrapper Get, raw Get and Has) of present keys, deleted keys, neighbours and the edges of the key range, then 2-10 wrapper scans (all four kinds) with n in {127,128,129,200,255,256,257,300,511..514,700,1023,1024,1025,2048,len/2,len-1,len,len+1,len+3}, filters {all, even keys, odd versions, version>=x, none}, pivot nil / the key at which n-1,n,n+1 items remain / any key or a neighbour, and 2-8 raw scans (all ten entry points, half of them unbounded) whose iterator stops after one of the same counts or never; every result must equal the first n matching items of the sorted-slice model in scan order, the content is compared again at the end. One case in three also stores 1-14 items of a type with a slice field (not comparable with ==) in a raw tree and a wrapper: ReplaceOrInsert's return value, Get of every key and Len after each store. Non-trivial: a wrapper scan returned more than 128 items; distinct = distinct case JSON",
 	Quick: 400, Thorough: 700,
-	Gen: GenBig, Exec: ExecBig,
+	Gen: GenBig, Exec: guarded("big.", ExecBig),
 }
